@@ -269,6 +269,55 @@ def e_span(run, repo, max_states):
                       'the span over the path through both steps is %s, expected %s (every state weighted with its own '
                       'coefficients)' % (show(got, 160), show(want, 160)), m, upd[1] if upd else fn_i,
                       sample='Network(%s): span %s' % (label, show(want, 100)))
+    # conditions given per species (<name>_kwargs): in a state of several species each one is evaluated under its own
+    # conditions, and the span is taken over those energies
+    for units in (None, 'kJ/mol'):
+        meth = 'get_G' if units else 'get_GoRT'
+        for order_name, base in (('pair state highest', {'A': 2, 'X': 10, 'Y': 20, 'B': 1}),
+                                 ('pair state lowest', {'A': 50, 'X': 2, 'Y': 4, 'B': 60})):
+            ranks = {}
+            I = Interp(repo, order=RankOrder(ranks, const_ranks=True, witness=True))
+            D = I.D
+            pX, pY = D.sym('pX'), D.sym('pY')
+            sp = {}
+
+            def gname(nm, P, meth=meth):
+                return '%s.%s[P=%s]' % (nm, meth, show(P, 40))
+            for nm in ('A', 'X', 'Y', 'B'):
+                o = Obj(nm, attrs={'name': nm, 'elements': DictV({'Z': C(1 if nm in 'XY' else 2)})})
+                o.missing.add('reaction')
+
+                def g(I_, obj, args, kwargs, gname=gname):
+                    return I_.D.sym(gname(obj.name, kwargs.get('P')))
+                o.opaque_methods[meth] = g
+                o.opaque_params[meth] = ('T', 'units', 'P')
+                sp[nm] = o
+                for k_, P in enumerate((None, pX, pY)):
+                    ranks[gname(nm, P)] = base[nm] + k_
+            r1 = make_reaction(I, repo, 'pmutt.reaction.Reaction', [sp['A']], [C(1)], [sp['X'], sp['Y']], [C(1), C(1)],
+                               None, None, name='r1')
+            r2 = make_reaction(I, repo, 'pmutt.reaction.Reaction', [sp['X'], sp['Y']], [C(1), C(1)], [sp['B']], [C(1)],
+                               None, None, name='r2')
+            net = I.construct(nci, [], {'reactions': ListV([r1, r2])}, name='net')
+            label = 'A = X + Y; X + Y = B, X_kwargs/Y_kwargs given, %s, units=%s' % (order_name, units)
+            if not isinstance(net, Obj):
+                run.fail('REF.span', 'Network.__init__', label, 'the network is not built: %s' % show(net), m, fn_i)
+                continue
+            states = [([sp['A']], [C(1)]), ([sp['X'], sp['Y']], [C(1), C(1)]), ([sp['B']], [C(1)])]
+            path = ListV([I.call_function(m, s2s, [ListV(a_), ListV(list(b_))], {}) for a_, b_ in states])
+            got = I.call_method(net, 'get_E_span', [], {'path': path, 'units': units, 'T': D.sym('T'),
+                                                        'X_kwargs': DictV({'P': pX}), 'Y_kwargs': DictV({'P': pY})})
+            G = [D.sym(gname('A', None)), D.sym(gname('X', pX)) + D.sym(gname('Y', pY)), D.sym(gname('B', None))]
+            gv = [base['A'], base['X'] + 1 + base['Y'] + 2, base['B']]
+            imax, imin = gv.index(max(gv)), gv.index(min(gv))
+            want = G[imax] - G[imin]
+            if imax < imin:
+                want = want + G[-1] - G[0]
+            n += 1
+            run.check(isinstance(got, Rat) and got.eq(want), 'REF.span', 'network.get_state_quantity', label,
+                      'the span is %s, expected %s (each species of a state under its own conditions)'
+                      % (show(got, 200), show(want, 200)), m, m.functions.get('get_state_quantity') or fn2,
+                      sample='Network(%s): span %s' % (label, show(want, 100)))
     return n
 
 
